@@ -12,6 +12,7 @@ import (
 	"sort"
 	"strings"
 	"sync/atomic"
+	"syscall"
 	"time"
 
 	"github.com/spf13/afero"
@@ -53,6 +54,10 @@ type Call struct {
 	// FailRename makes every backend Rename of this call fail (as across devices), so that Move takes its
 	// copy-then-remove fall-back; the outcome must be the same.
 	FailRename bool `json:"fail_rename,omitempty"`
+	// MkdirRace: every backend MkdirAll / Mkdir of this call CREATES the directory and still reports an error ("exist": EEXIST,
+	// as when another client created it in between on a back end whose MkdirAll is not atomic; "io": EIO after the creation).
+	// mkdir -p semantics: the call succeeds whenever the directory exists afterwards, so the outcome must be that of the clean call.
+	MkdirRace string `json:"mkdir_race,omitempty"`
 }
 
 func (c Call) String() string {
@@ -71,6 +76,9 @@ func (c Call) String() string {
 	}
 	if c.FailRename {
 		s += " rename-fails"
+	}
+	if c.MkdirRace != "" {
+		s += " mkdir-race:" + c.MkdirRace
 	}
 	if c.CancelAt > 0 {
 		s += fmt.Sprintf(" cancel@%d", c.CancelAt)
@@ -195,11 +203,12 @@ type backend struct {
 	root   string
 	killed atomic.Bool // set by the watchdog: every later backend operation fails, so a runaway call unwinds
 	// per-call script
-	opCount  atomic.Int64
-	faultAt  atomic.Int64
-	cancelAt atomic.Int64
-	cancel   atomic.Value // context.CancelFunc
-	noRename atomic.Bool
+	opCount   atomic.Int64
+	faultAt   atomic.Int64
+	cancelAt  atomic.Int64
+	cancel    atomic.Value // context.CancelFunc
+	noRename  atomic.Bool
+	mkdirRace atomic.Value // string
 }
 
 func newBackend(name string, root string) (*backend, error) {
@@ -227,6 +236,15 @@ func (b *backend) hook(op *shim.Op) error {
 	}
 	if op.Name == "Rename" && b.noRename.Load() {
 		return errCrossDevice
+	}
+	if op.Name == "MkdirAll" || op.Name == "Mkdir" {
+		if k, _ := b.mkdirRace.Load().(string); k != "" {
+			_ = b.inner.MkdirAll(op.Path, 0o755) // the directory IS created (by this call or by the client that won the race)
+			if k == "io" {
+				return &os.PathError{Op: "mkdir", Path: op.Path, Err: syscall.EIO}
+			}
+			return &os.PathError{Op: "mkdir", Path: op.Path, Err: syscall.EEXIST}
+		}
 	}
 	n := b.opCount.Add(1)
 	if k := b.faultAt.Load(); k > 0 && n == k {
@@ -454,6 +472,7 @@ func (b *backend) run(c Call) (Result, int64) {
 	b.faultAt.Store(int64(c.FaultAt))
 	b.cancelAt.Store(int64(c.CancelAt))
 	b.noRename.Store(c.FailRename)
+	b.mkdirRace.Store(c.MkdirRace)
 	ctx, cancel := context.WithCancel(context.Background())
 	b.cancel.Store(cancel)
 	defer cancel()
@@ -475,6 +494,7 @@ func (b *backend) run(c Call) (Result, int64) {
 	b.faultAt.Store(0)
 	b.cancelAt.Store(0)
 	b.noRename.Store(false)
+	b.mkdirRace.Store("")
 	return r, b.sh.OpenHandles()
 }
 
